@@ -1016,9 +1016,6 @@ func FuzzC20URL(f *testing.F) {
 	f.Add("mierus://u:p@h?profile=x&port=1-2&protocol=TCP")
 	f.Add("mieru://")
 	f.Fuzz(func(t *testing.T, s string) {
-		if strings.HasPrefix(strings.ToLower(s), "mieru:") && len(s) < 8 {
-			return // fixed finding F-C20-1 is covered by the regression corpus
-		}
 		appctl.URLToClientConfig(s)
 		if p, err := appctl.URLToClientProfile(s); err == nil {
 			appctl.ClientProfileToMultiURLs(p)
